@@ -52,6 +52,26 @@ type FibStrategy interface {
 // FibStrategy is a table containing FIB and Strategy entries for given prefixes.
 var FibStrategyTable FibStrategy
 
+// snapshot returns a copy of the entry (and of its nexthops) that later table updates do not touch.
+func (e *baseFibStrategyEntry) snapshot() *baseFibStrategyEntry {
+	c := &baseFibStrategyEntry{component: e.component, name: e.name, strategy: e.strategy}
+	c.nexthops = copyNextHops(e.nexthops)
+	return c
+}
+
+// copyNextHops returns a deep copy of a nexthop list (nil for an empty one).
+func copyNextHops(nexthops []*FibNextHopEntry) []*FibNextHopEntry {
+	if len(nexthops) == 0 {
+		return nil
+	}
+	c := make([]*FibNextHopEntry, len(nexthops))
+	for i, nh := range nexthops {
+		nhCopy := *nh
+		c[i] = &nhCopy
+	}
+	return c
+}
+
 // Name returns the name associated with the baseFibStrategyEntry.
 func (e *baseFibStrategyEntry) Name() enc.Name {
 	return e.name
